@@ -234,6 +234,8 @@ def _clip_inside(v, t, lo, hi, sc):
 def _extra(truth):
     if truth.get("latlon"):
         return {"latlon": True, "geo_scale": truth["geo_scale"]}
+    if truth.get("temporal"):
+        return {"temporal": True, "spatial_dim": truth["dim"] - 1}
     return {}
 
 
@@ -297,7 +299,7 @@ def _oracle_model(truth):
     """One model instance per (class, dim, rescale, lat-lon setting), reused: all
     parameters are overwritten through the public setters before every
     evaluation (constructing a model costs ~3 ms for the Hankel set-up)."""
-    key = (truth["cls"], truth["dim"], truth.get("rescale"), bool(truth.get("latlon")), truth.get("geo_scale"))
+    key = (truth["cls"], truth["dim"], truth.get("rescale"), bool(truth.get("latlon")), truth.get("geo_scale"), bool(truth.get("temporal")))
     m = _ORACLE_MODELS.get(key)
     if m is None:
         if len(_ORACLE_MODELS) > 64:
@@ -358,6 +360,11 @@ def gen_fit(draw, tier="quick", mode="iso", kind="recover"):
     truth = {"cls": cls, "dim": dim, "var": spec["var"], "rescale": spec["rescale"], "angles": spec["angles"]}
     truth["nugget"] = draw(st.one_of(st.just(0.0), st.just(0.0), logfloat(0.02, 2.0).map(lambda f: f * spec["var"])))
     extra = {}
+    if mode == "dir" and draw(st.integers(0, 3)) == 0:
+        # the last axis is time: same dimension, directional variograms for all axes incl. time
+        truth["temporal"] = True
+        truth["angles"] = None
+        extra = _extra(truth)
     if mode == "latlon":
         truth["latlon"] = True
         truth["geo_scale"] = draw(st.one_of(st.sampled_from(GEO_SCALES), logfloat(0.5, 1e4)))
